@@ -324,6 +324,7 @@ impl Pipe {
   pub fn n_inputs(&self) -> usize {
     match self {
       Pipe::S(Src::Hot(i)) | Pipe::S(Src::Raw(i)) | Pipe::S(Src::RawEager(i)) => i + 1,
+      Pipe::S(Src::Defer(inner)) => Pipe::S((**inner).clone()).n_inputs(),
       Pipe::S(_) => 0,
       Pipe::O1(Op1::Flat(_, inners), p) => {
         let m = inners
@@ -342,6 +343,7 @@ impl Pipe {
   }
   pub fn uses_time(&self) -> bool {
     match self {
+      Pipe::S(Src::Defer(inner)) => Pipe::S((**inner).clone()).uses_time(),
       Pipe::S(s) => matches!(
         s,
         Src::Interval(_)
